@@ -28,7 +28,14 @@ Everything is in namespace `E57.BlobRT`.  Main results:
                        (6) the hypotheses are satisfiable: cursor 1010 (header over the page boundary,
                        1100 data bytes over the next one); and for EVERY prefix and EVERY data below a
                        size bound the whole chain write → flush → open → read returns the data.
-                       `outside_finish`, `blob_survives_finish`: the usual way of finishing a file.
+                       `outside_finish`, `blob_survives_finish`: a generic finishing history
+                       (rest, header patch, flush) — still true, but NOT the shape of `EW.finalize`.
+* `finalize_history`, `ew_finalize_spec`, `outside_finalize`, `finalize_window_stable`,
+  `blob_survives_finalize_window`, `blob_survives_finalize`, `addBlob_finalize_roundtrip`, `finalize_ok`
+                       the real `EW.finalize` = history `finalizeOps xml hdr endOff` =
+                       `[.write xml, .align, .size, .seek 0, .write hdr, .seek endOff, .flush]`; every
+                       blob section behind the 48-byte header and in front of the cursor is read back
+                       from `e'.pw.dev.data` by every reader state reachable from `PR.new`.
                        A kernel-evaluated run of the concrete models for the straddling instance
                        (`straddleCheck_true`, about 90 s) is in E57/Proofs/BlobRoundTripExample.lean.
 * `blobRead_overlong_accepted`   observation: the reader's header check is lax by 32 bytes.
@@ -597,8 +604,9 @@ theorem blob_roundtrip_file (pw : PW) (data : Bytes) (hpw : pw.Inv) (pw' : PW) (
     ⟨ci, pp, dd⟩).1
   unfold l2p; omega
 
-/-- the way an E57 file is finished — more sections / the XML behind the blob, then a seek to the
-    file start and the 48-byte file header — is a history outside the blob's window -/
+/-- a generic finishing history — more sections / the XML behind the blob, then a seek to the
+    file start and a header — is outside the blob's window.  (The model's `EW.finalize` has a
+    different shape, see `finalizeOps` / `outside_finalize` in section J.) -/
 theorem outside_finish (a n : Nat) (s : LogStream) (x h : Bytes) (hs : a + n ≤ s.cur)
     (hh : h.length ≤ a) : Outside a n s [.write x, .size, .seek 0, .write h, .flush] := by
   refine ⟨Or.inr (Or.inl hs), trivial, trivial, ?_, trivial, trivial⟩
@@ -782,6 +790,205 @@ theorem two_blobs_instance :
   obtain ⟨t1, -, t3, -⟩ := two_blobs pw [] [1, 2, 3] inv0 pw1 pw2 _ _ e1 e2 [] trivial trivial
     pw2.abs.data hd h64 rfl rfl r0 hH
   exact ⟨pw, pw1, pw2, [], [1, 2, 3], _, _, r0, inv0, rfl, rfl, e1, e2, hH, t1, t3⟩
+
+/-! ## J. the real `EW.finalize` (XML, align, header patch, seek back behind the XML, flush) -/
+
+theorem fileHeaderBytes_length (a b c : Nat) : (fileHeaderBytes a b c).length = 48 := by
+  have h : (utf8 "ASTM-E57").length = 8 := by decide +kernel
+  unfold fileHeaderBytes
+  simp only [List.length_append, toLE_length, h]
+
+/-- the page-writer history of `EW.finalize`: XML, align, size, seek to the file start, the
+    48-byte file header, seek back behind the aligned XML, flush -/
+def finalizeOps (xml hdr : Bytes) (endOff : Nat) : List WOp :=
+  [.write xml, .align, .size, .seek 0, .write hdr, .seek endOff, .flush]
+
+/-- a successful `EW.finalize` IS that history on the page writer (only `pw` changes) -/
+theorem finalize_history (ft : FloatText) (e : EW) (tr : String → Option String) (e' : EW)
+    (hfin : EW.finalize ft e tr = .ok e') :
+    ∃ (xml hdr : Bytes) (endOff : Nat) (p6 : PW), hdr.length = 48 ∧
+      runConcrete (finalizeOps xml hdr endOff) e.pw = .ok e'.pw ∧
+      runConcrete [.write xml, .align, .size, .seek 0, .write hdr, .seek endOff] e.pw = .ok p6 ∧
+      e'.pw = p6.flush := by
+  unfold EW.finalize at hfin
+  split at hfin
+  · cases hfin
+  · split at hfin
+    · cases hfin
+    · rename_i xml0 _ xml _
+      dsimp only at hfin
+      cases h1 : e.pw.writeAll (utf8 xml) with
+      | err m => rw [h1] at hfin; cases hfin
+      | panic m => rw [h1] at hfin; cases hfin
+      | ok p1 =>
+        rw [h1, Outcome.bind_ok] at hfin
+        cases h2 : p1.align with
+        | err m => rw [h2] at hfin; cases hfin
+        | panic m => rw [h2] at hfin; cases hfin
+        | ok p2 =>
+          rw [h2, Outcome.bind_ok] at hfin
+          split at hfin
+          · cases hfin
+          · cases h5 : (p2.physicalSize.1.physicalSeek 0).1.writeAll
+                (fileHeaderBytes p2.physicalSize.2 e.pw.physicalPosition (utf8 xml).length) with
+            | err m => rw [h5] at hfin; cases hfin
+            | panic m => rw [h5] at hfin; cases hfin
+            | ok p5 =>
+              rw [h5, Outcome.bind_ok] at hfin
+              split at hfin
+              · cases hfin
+              · injection hfin with hfin
+                subst hfin
+                refine ⟨utf8 xml,
+                  fileHeaderBytes p2.physicalSize.2 e.pw.physicalPosition (utf8 xml).length,
+                  p2.physicalPosition, (p5.physicalSeek p2.physicalPosition).1,
+                  fileHeaderBytes_length _ _ _, ?_, ?_, rfl⟩
+                · simp only [finalizeOps, runConcrete, stepConcrete, h1, h2, h5, Outcome.bind_ok]
+                · simp only [runConcrete, stepConcrete, h1, h2, h5, Outcome.bind_ok]
+
+/-- the finalize history is outside every window that lies behind the file header and before the
+    cursor at which the XML is written -/
+theorem outside_finalize (a n : Nat) (s : LogStream) (xml hdr : Bytes) (endOff : Nat)
+    (hs : a + n ≤ s.cur) (hh : hdr.length ≤ a) : Outside a n s (finalizeOps xml hdr endOff) := by
+  have hal := align_cur_ge (s.write xml)
+  have hw : (s.write xml).cur = s.cur + xml.length := rfl
+  refine ⟨Or.inr (Or.inl hs), Or.inr (Or.inl (show a + n ≤ (s.write xml).cur by omega)), trivial,
+    trivial, ?_, trivial, trivial, trivial⟩
+  show hdr = [] ∨ a + n ≤ ((s.write xml).align.seek 0).cur
+    ∨ ((s.write xml).align.seek 0).cur + hdr.length ≤ a
+  unfold LogStream.seek
+  split
+  · right; right; show p2l 0 + hdr.length ≤ a; unfold p2l; omega
+  · right; left; omega
+
+/-- what a successful `EW.finalize` leaves: a well-formed, flushed page writer whose stream is the
+    old one after the finalize history; the device holds the paged image of that stream -/
+theorem ew_finalize_spec (ft : FloatText) (e : EW) (tr : String → Option String) (e' : EW)
+    (he : e.pw.Inv) (hfin : EW.finalize ft e tr = .ok e') :
+    ∃ (xml hdr : Bytes) (endOff : Nat), hdr.length = 48 ∧ e'.pw.Inv ∧
+      e'.pw.abs = runSpec (finalizeOps xml hdr endOff) e.pw.abs ∧
+      e'.pw.dev.data = Spec.image e'.pw.abs.data := by
+  obtain ⟨xml, hdr, endOff, p6, hl, h7, h6, ef⟩ := finalize_history ft e tr e' hfin
+  obtain ⟨w7, r7, i7, a7⟩ := pw_run (finalizeOps xml hdr endOff) e.pw he
+  rw [h7] at r7; injection r7 with r7; subst r7
+  obtain ⟨w6, r6, i6, -⟩ := pw_run _ e.pw he
+  rw [h6] at r6; injection r6 with r6; subst r6
+  obtain ⟨-, f2, f3⟩ := pw_flush p6 i6
+  refine ⟨xml, hdr, endOff, hl, i7, a7, ?_⟩
+  rw [ef, f2]; exact f3
+
+/-- `EW.finalize` leaves every window `[a, a+n)` with `48 ≤ a` and `a + n ≤` the cursor untouched -/
+theorem finalize_window_stable (ft : FloatText) (e : EW) (tr : String → Option String) (e' : EW)
+    (he : e.pw.Inv) (hfin : EW.finalize ft e tr = .ok e') (a n : Nat) (h48 : 48 ≤ a)
+    (hcur : a + n ≤ e.pw.abs.cur) :
+    (e'.pw.abs.data.drop a).take n = (e.pw.abs.data.drop a).take n ∧
+      a + n ≤ e'.pw.abs.data.length := by
+  obtain ⟨xml, hdr, endOff, hl, -, a7, -⟩ := ew_finalize_spec ft e tr e' he hfin
+  have hwf := (abs_wf e.pw he).2
+  rw [a7]
+  exact run_window_stable _ e.pw.abs a n (by omega)
+    (outside_finalize a n _ xml hdr endOff hcur (by omega))
+
+/-- **C06 over the real `finalize`** — every blob section that lies in the stream before
+    `finalize` (behind the 48-byte file header, in front of the cursor), however it got there, is
+    read back from the finished file by every reader state reachable from `PagedReader::new` on
+    the device contents `e'.pw.dev.data`. -/
+theorem blob_survives_finalize_window (ft : FloatText) (e : EW) (tr : String → Option String)
+    (e' : EW) (he : e.pw.Inv) (hfin : EW.finalize ft e tr = .ok e')
+    (s : Nat) (data : Bytes) (h48 : 48 ≤ s) (hcur : s + 16 + data.length ≤ e.pw.abs.cur)
+    (hwin : (e.pw.abs.data.drop s).take (16 + data.length) = blobBytes data)
+    (h64 : e'.pw.dev.data.length < 2 ^ 64)
+    (pos : Nat) (r0 : PR) (hreach : PR.Reach ⟨e'.pw.dev.data, pos⟩ 1024 r0) :
+    (blobRead r0 ⟨l2p s, data.length⟩).2 = some data := by
+  obtain ⟨-, -, -, -, i7, -, hfile⟩ := ew_finalize_spec ft e tr e' he hfin
+  obtain ⟨hst, hle⟩ := finalize_window_stable ft e tr e' he hfin s (16 + data.length) h48
+    (by omega)
+  have hd := (abs_wf e'.pw i7).1
+  obtain ⟨ci, dd, pp⟩ := pr_reach_inv _ _ r0 hreach
+  have hl := image_length e'.pw.abs.data hd
+  rw [hfile] at h64 dd
+  rw [hl] at h64
+  rw [hwin] at hst
+  have hbl := blobBytes_length data
+  have hX : Holds e'.pw.abs.data s (blobBytes data) := by
+    apply Holds.of_slice
+    · rw [hbl]; exact hst
+    · intro h; rw [h] at hbl; simp only [List.length_nil] at hbl; omega
+  have h64' : secLen data.length < 2 ^ 64 := by unfold secLen; omega
+  obtain ⟨r', er, -⟩ := blobRead_holds hd (r0 := r0) ⟨ci, pp, dd⟩ s
+    (blobHeaderBytes (secLen data.length)) data
+    (blobHeaderBytes_length _) (blobHeader_id _)
+    (by rw [blobHeader_len, Nat.mod_eq_of_lt h64']; unfold secLen; omega) hX
+  rw [er]
+
+/-- the same for a blob written by `blobWrite` on a page writer `pw` whose cursor is behind the
+    file header, followed by any history `mid` outside the blob's window that ends with the cursor
+    behind the blob, followed by `EW.finalize` -/
+theorem blob_survives_finalize (pw : PW) (data : Bytes) (hpw : pw.Inv) (pw' : PW) (b : BlobRef)
+    (hw : blobWrite pw data = .ok (pw', b)) (h48 : 48 ≤ pw.abs.cur)
+    (mid : List WOp) (hmid : Outside pw.abs.cur (16 + data.length) pw'.abs mid)
+    (e : EW) (hrun : runConcrete mid pw' = .ok e.pw)
+    (hcur : pw.abs.cur + 16 + data.length ≤ e.pw.abs.cur)
+    (ft : FloatText) (tr : String → Option String) (e' : EW)
+    (hfin : EW.finalize ft e tr = .ok e')
+    (h64 : e'.pw.dev.data.length < 2 ^ 64)
+    (pos : Nat) (r0 : PR) (hreach : PR.Reach ⟨e'.pw.dev.data, pos⟩ 1024 r0) :
+    (blobRead r0 b).2 = some data := by
+  obtain ⟨w1, w2, w3, w4, inv', -⟩ := blob_window pw data hpw pw' b hw
+  obtain ⟨pe, re, ie, ae⟩ := pw_run mid pw' inv'
+  rw [hrun] at re; injection re with re; subst re
+  obtain ⟨hst, -⟩ := run_window_stable mid pw'.abs pw.abs.cur (16 + data.length) (by omega) hmid
+  rw [w2]
+  exact blob_survives_finalize_window ft e tr e' ie hfin pw.abs.cur data h48 hcur
+    (by rw [ae, hst, w1]) h64 pos r0 hreach
+
+/-- `EW.addBlob` directly followed by `EW.finalize` -/
+theorem addBlob_finalize_roundtrip (e0 e1 e' : EW) (data : Bytes) (b : BlobRef) (he : e0.pw.Inv)
+    (h48 : 48 ≤ e0.pw.abs.cur) (hadd : e0.addBlob data = .ok (e1, b))
+    (ft : FloatText) (tr : String → Option String) (hfin : EW.finalize ft e1 tr = .ok e')
+    (h64 : e'.pw.dev.data.length < 2 ^ 64)
+    (pos : Nat) (r0 : PR) (hreach : PR.Reach ⟨e'.pw.dev.data, pos⟩ 1024 r0) :
+    (blobRead r0 b).2 = some data := by
+  unfold EW.addBlob at hadd
+  cases hb : blobWrite e0.pw data with
+  | err m => rw [hb] at hadd; cases hadd
+  | panic m => rw [hb] at hadd; cases hadd
+  | ok res =>
+    obtain ⟨pw', b'⟩ := res
+    rw [hb, Outcome.bind_ok] at hadd
+    injection hadd with hadd
+    injection hadd with h1 h2
+    subst h1; subst h2
+    obtain ⟨-, -, w3, -⟩ := blob_window e0.pw data he pw' b' hb
+    exact blob_survives_finalize e0.pw data he pw' b' hb h48 [] trivial _ rfl w3 ft tr e' hfin
+      h64 pos r0 hreach
+
+/-- non-vacuity of the `finalize` theorems: on a well-formed page writer `EW.finalize` succeeds as
+    soon as the XML can be serialised and the caller's transformer accepts it -/
+theorem finalize_ok (ft : FloatText) (e : EW) (tr : String → Option String) (he : e.pw.Inv)
+    (x y : String) (hs : serializeRoot ft e.root e.pcs e.imgs e.exts = some x) (ht : tr x = some y) :
+    ∃ e', EW.finalize ft e tr = .ok e' := by
+  obtain ⟨p1, e1, i1, a1⟩ := pw_writeAll e.pw (utf8 y) he
+  obtain ⟨p2, e2, i2, a2⟩ := pw_align p1 i1
+  obtain ⟨i3, a3, -, -⟩ := pw_size p2 i2
+  have hz : l2p 0 = 0 := by decide
+  obtain ⟨p4, e4, i4, a4⟩ := pw_seek_back p2.physicalSize.1 0 i3 (Nat.zero_le _)
+  rw [hz] at e4
+  obtain ⟨p5, e5, i5, a5⟩ := pw_writeAll p4
+    (fileHeaderBytes p2.physicalSize.2 e.pw.physicalPosition (utf8 y).length) i4
+  have hlen : p2.abs.cur ≤ p5.abs.data.length := by
+    have h1 := write_length_ge p4.abs
+      (fileHeaderBytes p2.physicalSize.2 e.pw.physicalPosition (utf8 y).length)
+    have h2 := (abs_wf p2 i2).2
+    have h3 : p4.abs.data.length = p2.abs.data.length := by rw [a4, a3]
+    rw [a5]
+    omega
+  obtain ⟨p6, e6, -, -⟩ := pw_seek_back p5 p2.abs.cur i5 hlen
+  have hp2 : p2.physicalPosition = l2p p2.abs.cur := pw_position p2 i2
+  refine ⟨{ e with pw := p6.flush }, ?_⟩
+  unfold EW.finalize
+  simp only [hs, ht, e1, e2, Outcome.bind_ok, e4, e5, hp2, e6, Bool.not_true, Bool.false_eq_true,
+    if_false, Outcome.pure_eq]
 
 end BlobRT
 end E57
